@@ -1,0 +1,82 @@
+//go:build verif
+
+// Contracts for C22 (stable writes survive a crash) and the small reply-part encoders shared with C14/C26.
+// Checked by /verif/govc (comment-only file). Ghost "unsynced" (declared in /verif/specs/absfs.spec) counts the
+// file-data modifications the server has issued to the backend since the last successful File.Sync: it is what a
+// crash that discards everything not yet synced may lose.
+package absnfs
+
+// ---- reply parts
+// wcc_attr: size, mtime, ctime = 24 bytes
+//@ func encodeWccAttr
+//@ prop C14 C22 C04
+//@ requires attrs != nil
+//@ modifies wlen, wdata
+//@ ensures [frame] appendFrame(valof(w), old(wlen[valof(w)])) && wlen[valof(w)] >= old(wlen[valof(w)])
+//@ ensures [wcc-attr-24-bytes] isnil(result) ==> wlen[valof(w)] == old(wlen[valof(w)]) + 24
+//@ ensures [size] isnil(result) ==> be64(wdata[valof(w)], old(wlen[valof(w)])) == uint64(attrs.Size)
+//@ ensures [buffer-never-fails] typeof(w) == typeid(*bytes.Buffer) ==> isnil(result)
+
+// wcc_data with both halves present: TRUE, wcc_attr, TRUE, fattr3 = 116 bytes
+//@ func encodeWccData
+//@ prop C14 C22 C04
+//@ requires buf != nil && preAttrs != nil && postAttrs != nil
+//@ modifies wlen, wdata
+//@ ensures [frame] appendFrame(buf, old(wlen[buf]))
+//@ ensures [never-fails] isnil(result)
+//@ ensures [wcc-data-116-bytes] wlen[buf] == old(wlen[buf]) + 116 && be32(wdata[buf], old(wlen[buf])) == 1 && be32(wdata[buf], old(wlen[buf]) + 28) == 1
+//@ ensures [pre-size] be64(wdata[buf], old(wlen[buf]) + 4) == uint64(preAttrs.Size)
+//@ ensures [post-attrs] be32(wdata[buf], old(wlen[buf]) + 32) == ftypeOf(postAttrs.Mode) && be64(wdata[buf], old(wlen[buf]) + 52) == uint64(postAttrs.Size) && be64(wdata[buf], old(wlen[buf]) + 84) == postAttrs.FileId
+
+// post_op_attr present: TRUE, fattr3 = 88 bytes
+//@ func encodePostOpAttr
+//@ prop C14 C04 C26
+//@ requires buf != nil && attrs != nil
+//@ modifies wlen, wdata
+//@ ensures [frame] appendFrame(buf, old(wlen[buf]))
+//@ ensures [never-fails] isnil(result)
+//@ ensures [post-op-88-bytes] wlen[buf] == old(wlen[buf]) + 88 && be32(wdata[buf], old(wlen[buf])) == 1
+//@ ensures [attrs] be32(wdata[buf], old(wlen[buf]) + 4) == ftypeOf(attrs.Mode) && be64(wdata[buf], old(wlen[buf]) + 24) == uint64(attrs.Size) && be64(wdata[buf], old(wlen[buf]) + 56) == attrs.FileId
+
+// post_op_attr absent: FALSE = 4 bytes
+//@ func encodeNoPostOpAttr
+//@ prop C14 C26
+//@ requires buf != nil
+//@ modifies wlen, wdata
+//@ ensures [frame] appendFrame(buf, old(wlen[buf]))
+//@ ensures [no-post-op-4-bytes] wlen[buf] == old(wlen[buf]) + 4 && be32(wdata[buf], old(wlen[buf])) == 0
+
+// ---- C22: what WRITE acknowledges as FILE_SYNC has been synced
+// committed word and write verifier of a WRITE3resok: status, wcc_data, count, committed, verf[8]
+//@ specdef writeCommitted(r *RPCReply) mathint = replyWord(r, 124)
+//@ specdef verfAt(r *RPCReply, p mathint, s *Server) bool = unboxed(r.Data, []byte)[p] == s.writeVerf[0] && unboxed(r.Data, []byte)[p+1] == s.writeVerf[1] && unboxed(r.Data, []byte)[p+2] == s.writeVerf[2] && unboxed(r.Data, []byte)[p+3] == s.writeVerf[3] && unboxed(r.Data, []byte)[p+4] == s.writeVerf[4] && unboxed(r.Data, []byte)[p+5] == s.writeVerf[5] && unboxed(r.Data, []byte)[p+6] == s.writeVerf[6] && unboxed(r.Data, []byte)[p+7] == s.writeVerf[7]
+
+//@ also AbsfsNFS.WriteWithContext
+//@ requires acInv(s.attrCache)
+//@ ensures [cache-inv] {C22, C01} acInv(s.attrCache) && s.attrCache == old(s.attrCache)
+//@ ensures [stable-on-success] {C22} isnil(result1) ==> unsynced == 0
+//@ also AbsfsNFS.Write
+//@ requires acInv(s.attrCache)
+//@ ensures [cache-inv] {C22, C01} acInv(s.attrCache) && s.attrCache == old(s.attrCache)
+//@ ensures [stable-on-success] {C22} isnil(result1) ==> unsynced == 0
+
+//@ also NFSProcedureHandler.handleWrite
+//@ ensures [file-sync-means-synced] {C22} result0 == reply && replyIsBytes(reply) && replyStatus(reply) == 0 && writeCommitted(reply) == 2 ==> unsynced == 0
+//@ ensures [ok-reply-length] {C22} result0 == reply && replyIsBytes(reply) && replyStatus(reply) == 0 ==> replyLen(reply) == 136
+//@ ensures [write-verifier] {C22} result0 == reply && replyIsBytes(reply) && replyStatus(reply) == 0 ==> verfAt(reply, 128, h.server)
+
+// COMMIT has nothing left to do only because every acknowledged WRITE is already synced: it must not leave
+// unsynced data behind a successful reply, and it returns the same verifier
+//@ also NFSProcedureHandler.handleCommit
+//@ ensures [commit-leaves-nothing-unsynced] {C22} old(unsynced) == 0 && result0 == reply && replyIsBytes(reply) && replyStatus(reply) == 0 ==> unsynced == 0
+//@ ensures [ok-reply-length] {C22} result0 == reply && replyIsBytes(reply) && replyStatus(reply) == 0 ==> replyLen(reply) == 128
+//@ ensures [write-verifier] {C22} result0 == reply && replyIsBytes(reply) && replyStatus(reply) == 0 ==> verfAt(reply, 120, h.server)
+
+// the verifier is written once, when the Server is constructed
+//@ writers [verifier-writers] C22 : Server.writeVerf : NewServer
+
+// the verifier of a new Server is the construction-time clock reading (so two instances created at different
+// clock readings answer with different verifiers, lemma below)
+//@ specdef verfValue(s *Server) mathint = be32(s.writeVerf, 0) * 4294967296 + be32(s.writeVerf, 4)
+//@ also NewServer
+//@ ensures [verifier-from-clock] {C22} isnil(result1) ==> exists(t, time.Time, tsec(t) == clock && verfValue(result0) == uint64(unixnano(t)))
